@@ -240,7 +240,7 @@ func init() {
 	fw.Register(&fw.Property{
 		ID:     "C18",
 		Run:    runC18,
-		Rule:   "seeded programs of the C01 (core, 5% faults), C03 (try/catch/finally, Go errors) and C12 (macros, quasiquote, library macros) generators, each evaluated without a stepper and then under 16 (quick) / 40 (thorough) scripted Stepper callbacks (constant NoOp/Next/In/Out, alternating pairs, patterned and seeded random command sequences); result (modulo gensym names), error class, thrown value and the ordered trace must be identical; the callback must never receive a nil scope nor a symbol that does not resolve in the scope handed with it (generator-known unbound names excepted); distinct = program skeletons with non-empty trace; plus 18 long-running programs (4000-12000 tail calls, mutual recursion, deep non-tail recursion, swap! loops, try nests unwinding) under 8 scripts",
+		Rule:   "seeded programs of the C01 (core, 5% faults), C03 (try/catch/finally, Go errors) and C12 (macros, quasiquote, library macros) generators, each evaluated without a stepper and then under 16 (quick) / 40 (thorough) scripted Stepper callbacks (constant NoOp/Next/In/Out, alternating pairs, patterned and seeded random command sequences); result (modulo gensym names), error class, thrown value and the ordered trace must be identical; the callback must never receive a nil scope nor a symbol that does not resolve in the scope handed with it (generator-known unbound names excepted); distinct = program skeletons with non-empty trace; plus 18 long-running programs (4000-12000 tail calls, mutual recursion, deep non-tail recursion, swap! loops, try nests unwinding) under 8 scripts; every (trace! :k) form handed to the callback must be followed by its effect (a handed form is about to be evaluated); programs include (macroexpand (m (trace! :k) 1))",
 		Assume: []string{"single-threaded (the Stepper is process-wide by design)", "recursion depth of generated programs is small, stepping replaces the loop by recursion"},
 		Finish: func(m *fw.Merged) {
 			m.Floor("programs", 500)
